@@ -100,6 +100,80 @@ theorem decode_prefix_fails (header payload : Bytes) (shape : List Nat) (hh : he
           simp [List.length_take, List.length_drop, hlen]; omega
         rw [if_pos this]
 
+/-! ### what is accepted is complete; appended bytes change nothing; short files are rejected -/
+
+/-- **What is accepted is complete**: whenever `np.load` accepts a file, the header is entirely present, the shape is the one its
+    header names, and the payload handed out is exactly the `8 · ∏ shape` bytes that follow the header — never fewer numbers than the
+    shape announces, never bytes from elsewhere. -/
+theorem decode_ok_sound (file : Bytes) (shape : List Nat) (body : Bytes) (h : decode shapeOf file = .ok shape body) :
+    file.take 8 = magic ∧
+    ∃ hlen, readU16le ((file.drop 8).take 2) = some hlen ∧ 10 + hlen + 8 * prod shape ≤ file.length ∧
+      shapeOf ((file.drop 10).take hlen) = some shape ∧
+      body = (file.drop (10 + hlen)).take (8 * prod shape) ∧ body.length = 8 * prod shape := by
+  unfold decode at h
+  split_ifs at h with hm
+  simp only [ne_eq, not_not] at hm
+  refine ⟨hm, ?_⟩
+  cases hr : readU16le ((file.drop 8).take 2) with
+  | none => simp [hr] at h
+  | some hlen =>
+    simp only [hr] at h
+    split_ifs at h with hh
+    cases hs : shapeOf ((file.drop 10).take hlen) with
+    | none => simp [hs] at h
+    | some sh =>
+      simp only [hs] at h
+      split_ifs at h with hb
+      simp only [Verdict.ok.injEq] at h
+      obtain ⟨rfl, rfl⟩ := h
+      have h2 : ((file.drop 8).take 2).length = 2 := by
+        generalize (file.drop 8).take 2 = l at hr
+        match l, hr with
+        | [_, _], _ => rfl
+      simp only [List.length_take, List.length_drop, not_lt] at hh hb h2
+      refine ⟨hlen, rfl, by omega, hs, rfl, ?_⟩
+      simp only [List.length_take, List.length_drop]; omega
+
+/-- **Appending never changes an accepted basis**: if a file is accepted, the same file followed by any further bytes (a writer that is
+    still appending, a second writer's tail) is accepted with the same shape and the same payload. -/
+theorem decode_append (file extra : Bytes) (shape : List Nat) (body : Bytes) (h : decode shapeOf file = .ok shape body) :
+    decode shapeOf (file ++ extra) = .ok shape body := by
+  obtain ⟨hm, hlen, hr, hlenle, hs, hb, hbl⟩ := decode_ok_sound shapeOf file shape body h
+  have l8 : 8 ≤ file.length := by omega
+  have t8 : (file ++ extra).take 8 = magic := by rw [List.take_append_of_le_length l8]; exact hm
+  have t2 : ((file ++ extra).drop 8).take 2 = (file.drop 8).take 2 := by
+    rw [List.drop_append_of_le_length l8, List.take_append_of_le_length (by simp only [List.length_drop]; omega)]
+  have th : ((file ++ extra).drop 10).take hlen = (file.drop 10).take hlen := by
+    rw [List.drop_append_of_le_length (by omega), List.take_append_of_le_length (by simp only [List.length_drop]; omega)]
+  have tb : ((file ++ extra).drop (10 + hlen)).take (8 * prod shape) = body := by
+    rw [List.drop_append_of_le_length (by omega), List.take_append_of_le_length (by simp only [List.length_drop]; omega)]
+    exact hb.symm
+  have hl : ((file.drop 10).take hlen).length = hlen := by simp only [List.length_take, List.length_drop]; omega
+  unfold decode
+  simp only [t8, ne_eq, not_true_eq_false, if_false, t2, hr, th, hl, lt_irrefl, hs, tb, hbl]
+
+/-- trailing bytes after a complete basis file are ignored -/
+theorem decode_encode_append (header payload extra : Bytes) (shape : List Nat) (hh : header.length < 65536)
+    (hs : shapeOf header = some shape) (hp : payload.length = 8 * prod shape) :
+    decode shapeOf (encode header payload ++ extra) = .ok shape payload :=
+  decode_append shapeOf _ extra shape payload (decode_encode shapeOf header payload shape hh hs hp)
+
+/-- a file that does not start with the `.npy` magic string is rejected, whatever follows -/
+theorem decode_bad_magic (file : Bytes) (h : file.take 8 ≠ magic) : decode shapeOf file = .error := by
+  unfold decode; rw [if_pos h]
+
+/-- a file shorter than its header announces, or than its shape needs, is rejected -/
+theorem decode_short_fails (file : Bytes) (hlen : Nat) (shape : List Nat)
+    (hr : readU16le ((file.drop 8).take 2) = some hlen) (hs : shapeOf ((file.drop 10).take hlen) = some shape)
+    (hshort : file.length < 10 + hlen + 8 * prod shape) : decode shapeOf file = .error := by
+  cases hd : decode shapeOf file with
+  | error => rfl
+  | ok sh body =>
+    obtain ⟨_, hlen', hr', hle, hs', _, _⟩ := decode_ok_sound shapeOf file sh body hd
+    rw [hr] at hr'; cases hr'
+    rw [hs] at hs'; cases hs'
+    omega
+
 /-! ### fault sequences on the cache machine (restated from C07 for the fault alphabet) -/
 
 open PyAbel.Cache PyAbel.C07 in
